@@ -104,11 +104,13 @@ def quadrature_regions(prog: Program) -> Dict[str, Tuple[Poly, Poly, object, obj
         raise AnalysisError("L1: gfun/hfun are not table lookups by shape")
     # default of time_2
     default_b = None
-    for st in walk_local(u.node):
-        if isinstance(st, ast.If) and isinstance(st.test, ast.Compare) and \
-                dotted(st.test.left) == "time_2" and isinstance(st.test.ops[0], ast.Is):
-            for b in st.body:
-                if isinstance(b, ast.Assign) and dotted(b.targets[0]) == "time_2":
+    for b in walk_local(u.node):
+        if isinstance(b, ast.Assign) and dotted(b.targets[0]) == "time_2":
+            for (t, br) in branch_context(u.node, b):
+                if isinstance(t, ast.Compare) and len(t.ops) == 1 and dotted(t.left) == "time_2" \
+                        and isinstance(t.comparators[0], ast.Constant) \
+                        and t.comparators[0].value is None \
+                        and br == isinstance(t.ops[0], (ast.Is, ast.Eq)):
                     default_b = eval_form(b.value, _time_leaf)
     if default_b is None:
         raise AnalysisError("L1: default time_2 = time_1 + delta not found")
